@@ -53,6 +53,7 @@ type RealNode struct {
 	MonViol       func(prop, sig, what string) // set by the scenario: report a monitor violation
 	reqCancelled  bool                        // the context of the last RequestNewBlockProposal was cancelled when it returned
 	AheadUntil    uint64                      // a node sync accepted by the main loop has cancelled every context below this height
+	CancelledH, CancelledV uint64             // an election trigger handled by the main loop during an SPI call has cancelled every context of height CancelledH below view CancelledV
 	CurProposalView *uint64                   // view of the PREPREPARE / NEW_VIEW being delivered (for the proposer monitor)
 
 	// observations for monitors
@@ -94,6 +95,9 @@ func (u *recBlockUtils) during(ctx context.Context) string {
 	}
 	n.CancelDuring = 0
 	n.St.Contexts.CancelOlderThan(state.NewHeightView(hv.Height(), primitives.View(v)))
+	if uint64(hv.Height()) != n.CancelledH || v > n.CancelledV {
+		n.CancelledH, n.CancelledV = uint64(hv.Height()), v
+	}
 	return fmt.Sprintf("%d", v)
 }
 
